@@ -7,7 +7,13 @@ agree    : (1) `sliceView` reproduces every dumped view of the chain (physically
            bitmap bytes, up to the bitmaps and with all decoded rows equal); (2) the reader model reproduces the
            items read from the final slice.
 spec C12 : items of the slice = the window of the items of the whole array, AND (independently of the crate)
-           Spec.decodeAt of the final view = Spec.decodeAt of the whole view at o + i = the generator's rows. -/
+           Spec.decodeAt of the final view = Spec.decodeAt of the whole view at o + i = the generator's rows.
+typed    : the same for the record target a user would naturally write (`typed_ty`) and for that target without any
+           `Option` layer addressed as a tuple (`strict_ty`: rows with a null inside fail) — theorems `readAs_slice`,
+           `batch_readAs_slice`: typed items of the slice = window of the typed items of the whole array; the bulk
+           read `Vec<R>` of the slice = the `ok` values of that window (or fails like its first failing item), and
+           = the window of the bulk read of the whole array when that succeeds; `readAs` / the bulk loop of the model
+           on the final view reproduce both. -/
 namespace Driver.Suites.Slice
 open Lean Driver SaModel SaModel.Read
 
@@ -119,6 +125,48 @@ def handle (j : Json) : Except String Verdict := do
              why := s!"deserializing the slice (o={absO}, l={absL}) does not give the window of the whole array's items" }
   if !agree then
     return { agree := false, spec := [("C12", "pass")], sig := s!"C12/disagree/{backend}/{kind}", tags := tags, why := why }
+  -- typed reads: the natural record target (`typed`) and the same without any `Option` layer, as a tuple (`strict`)
+  for label in ["typed", "strict"] do
+    if let some tyJ := getOpt j s!"{label}_ty" then
+      let ty ← targetOfJson tyJ
+      let wholeTyped := (← getArr j s!"whole_{label}").toList
+      let sliceTyped := (← getArr j s!"slice_{label}").toList
+      let windowTyped := (wholeTyped.drop absO).take absL
+      tags := label :: tags
+      if sliceTyped != windowTyped || sliceTyped.length != absL then
+        return { agree := true, spec := [("C12", "fail"), ("C16", "pass")], sig := s!"C12/{label}-items/{backend}/{kind}", tags := tags,
+                 why := s!"{label} reads of the slice (o={absO}, l={absL}) are not the window of the {label} reads of the whole array" }
+      if sliceTyped.any (fun it => implCls it != "ok") then tags := s!"{label}-err" :: tags
+      k := 0
+      for it in sliceTyped do
+        match compareRead (modelRead Fixes.all fm final { ty := ty, idx := k }) it with
+        | .agree | .na _ => pure ()
+        | .differ w =>
+          return { agree := false, spec := [("C12", "pass")], sig := s!"C12/{label}-disagree/{backend}/{kind}", tags := tags,
+                   why := s!"{label} item {k}: {w}" }
+        k := k + 1
+      -- bulk: `Vec<R>` of the slice against the window of the item-wise reads, and against the bulk read of the whole
+      let sliceBulk ← getObj j s!"slice_{label}_bulk"
+      let wholeBulk ← getObj j s!"whole_{label}_bulk"
+      let okVals := windowTyped.filterMap fun x => (x.getObjVal? "ok").toOption
+      let bulkOk :=
+        match windowTyped.find? (fun x => implCls x != "ok") with
+        | none => sliceBulk == Json.mkObj [("ok", Json.mkObj [("seq", Json.arr okVals.toArray)])]
+        | some bad => implCls sliceBulk == implCls bad
+      let wholeOk :=
+        match (wholeBulk.getObjVal? "ok").toOption.bind (fun v => (v.getObjVal? "seq").toOption) with
+        | some (.arr xs) =>
+          sliceBulk == Json.mkObj [("ok", Json.mkObj [("seq", Json.arr ((xs.toList.drop absO).take absL).toArray)])]
+        | _ => true
+      if implCls sliceBulk != "ok" then tags := s!"{label}-bulk-err" :: tags
+      if !bulkOk || !wholeOk then
+        return { agree := true, spec := [("C12", "fail"), ("C16", "pass")], sig := s!"C12/{label}-bulk/{backend}/{kind}", tags := tags,
+                 why := s!"bulk {label} read of the slice (o={absO}, l={absL}) is not the window of the reads of the whole array" }
+      match compareRead (modelRead Fixes.all fm final { ty := ty, idx := 0, bulk := true }) sliceBulk with
+      | .agree | .na _ => pure ()
+      | .differ w =>
+        return { agree := false, spec := [("C12", "pass")], sig := s!"C12/{label}-bulk-disagree/{backend}/{kind}", tags := tags,
+                 why := s!"bulk {label}: {w}" }
   if rows.length == 0 then tags := "trivial" :: tags
   return { agree := true, spec := [("C12", "pass"), ("C16", "pass")], tags := tags.eraseDups }
 
